@@ -142,7 +142,8 @@ def expected_view(doc):
     """the typed configuration a document must decode to (factory defaults overlaid by exactly the written keys)"""
     svc = doc.get("service") or {}
     tel = svc.get("telemetry") or {}
-    v = dict(logs_level=(tel.get("logs") or {}).get("level", "info"),
+    v = dict(logs_level=(tel.get("logs") or {}).get("level", "info"), logs_encoding="console",
+             sampling=dict(enabled=True, initial=10, thereafter=100),
              metrics_level=METRICS_LEVELS.get((tel.get("metrics") or {}).get("level"), "Normal"),
              resource=tel.get("resource"), comps={}, pipelines={}, sexts=list(svc.get("extensions") or []))
     for sec in ("receivers", "processors", "exporters", "connectors", "extensions"):
@@ -153,7 +154,8 @@ def expected_view(doc):
             table = body.get("table")
             v["comps"][sec][i] = dict(endpoint=body.get("endpoint", "default:1"), limit=body.get("limit", 7),
                                       nested=dict(flag=nested.get("flag", False), name=nested.get("name", "dflt")),
-                                      table=None if table is None else {r: dict(weight=(row or {}).get("weight", 0)) for r, row in table.items()})
+                                      table=None if table is None else {r: dict(weight=(row or {}).get("weight", 0)) for r, row in table.items()},
+                                      opt=dict(size=5, mode="m0"), labels=dict(env="dev"), hosts=["h0", "hx"])
     for pid, body in (svc.get("pipelines") or {}).items():
         v["pipelines"][pid] = {k: list(body.get(k) or []) for k in ("receivers", "processors", "exporters")}
     return v
@@ -214,7 +216,7 @@ def compare(d, o):
         if got.get("resource") == {}:
             got["resource"] = None if want["resource"] is None else got["resource"]
         if want != got:
-            diff = [k for k in want if want[k] != got.get(k)]
+            diff = [k for k in want if want[k] != got.get(k)] or [k for k in got if k not in want]
             k = diff[0]
             return "typed configuration does not reflect the document at %s: written/default %s, decoded %s" % (
                 k, json.dumps(want[k], sort_keys=True)[:300], json.dumps(got.get(k), sort_keys=True)[:300])
@@ -231,7 +233,13 @@ def run_docs(c, binp, docs, universe_ids, label):
             d["_doc"], d["_written"] = render(c, d)
         texts.append(d["_doc"])
     vlib.write_ndjson(inp, [dict(doc=t, types=types) for t in texts])
-    c.run([binp, inp, out], timeout=1800)
+    try:
+        c.run([binp, inp, out], timeout=1800)
+    except vlib.Inconclusive as e:
+        # the documents are loaded by 8 goroutines side by side, which the statement does not ask for: if the driver dies
+        # (e.g. a runtime fault on state shared between loads), load them again strictly one after the other
+        c.log("parallel driver failed (%s...): loading the documents sequentially" % str(e)[:120].replace("\n", " "))
+        c.run([binp, inp, out], timeout=3600, env=dict(os.environ, CFGVALIDATE_WORKERS="1"))
     res = vlib.read_ndjson(out)
     if len(res) != len(docs):
         raise vlib.Inconclusive("driver loaded %d of %d documents" % (len(res), len(docs)))
@@ -339,6 +347,195 @@ def run_trees(c, binp, trees, label):
     return res
 
 
+# ------------------------------------------------------------------ clause (d): defaults overlaid by exactly the written keys
+def _comp(c):
+    return "rt/" + c
+
+
+def setting_path(sname):
+    """setting of ConfigOverlay.tla -> path in the document"""
+    p = sname.split(".")
+    if p[0] == "tl":
+        return ["service", "telemetry", "logs"] + (["sampling", p[2]] if p[1] == "s" else [p[1]])
+    if p[0] == "tm":
+        return ["service", "telemetry", "metrics", p[1]]
+    return ["receivers", _comp(p[0])] + p[1:]
+
+
+def token_value(sname, tok):
+    if sname.endswith(".hosts"):
+        return [x for x in tok.split(",") if x]
+    if tok in ("true", "false") and (sname.endswith("enabled") or sname.endswith("flag")):
+        return tok == "true"
+    if tok.isdigit():
+        return int(tok)
+    return tok
+
+
+def to_token(v):
+    if v is None:
+        return "<absent>"
+    if isinstance(v, bool):
+        return "true" if v else "false"
+    if isinstance(v, list):
+        return ",".join(str(x) for x in v)
+    return str(v)
+
+
+def dig(m, path):
+    for k in path:
+        if not isinstance(m, dict) or k not in m:
+            return None
+        m = m[k]
+    return m
+
+
+def observed_tokens(o, names):
+    """(typed, effective) values of every setting as tokens"""
+    v, eff = o["view"], o.get("eff") or {}
+    typed, effective = {}, {}
+    for s in names:
+        p = s.split(".")
+        if p[0] == "tl":
+            if p[1] == "s":
+                typed[s] = to_token((v["sampling"] or {}).get(p[2]))
+                effective[s] = to_token(dig(eff, ["logs", "sampling", p[2]]))
+            else:
+                typed[s] = to_token(v["logs_" + p[1]])
+                effective[s] = to_token(dig(eff, ["logs", p[1]]))
+        elif p[0] == "tm":
+            typed[s] = to_token(v["metrics_level"]).lower()
+            effective[s] = to_token(eff.get("metrics_level")).lower()
+        else:
+            typed[s] = to_token(dig(v["comps"]["receivers"], [_comp(p[0])] + p[1:]))
+            effective[s] = to_token(dig(eff, ["receivers", _comp(p[0])] + p[1:]))
+    return typed, effective
+
+
+def render_load(c, ld):
+    doc = {"receivers": {_comp("a"): c.rng.choice([None, {}]), _comp("b"): c.rng.choice([None, {}])}, "exporters": {"e1": None},
+           "service": {"pipelines": {"logs/a": {"receivers": [_comp("a"), _comp("b")], "exporters": ["e1"]}}}}
+    for w in ld["w"]:
+        path = setting_path(w["s"])
+        m = doc
+        for k in path[:-1]:
+            if not isinstance(m.get(k), dict):
+                m[k] = {}
+            m = m[k]
+        m[path[-1]] = token_value(w["s"], w["v"])
+    if ld["defect"] == "dangling":
+        doc["service"]["pipelines"]["logs/a"]["processors"] = ["pmissing"]
+    elif ld["defect"] == "unknownkey":
+        where = c.rng.choice(["top", "service", "telemetry"])
+        if where == "top":
+            doc["bogus_key"] = 1
+        elif where == "service":
+            doc["service"]["bogus_key"] = 1
+        else:
+            doc["service"].setdefault("telemetry", {})["bogus_key"] = 1
+    return json.dumps(doc)
+
+
+def compare_load(ld, o):
+    if o.get("panic"):
+        return "configuration loading panicked: %s" % o["panic"]
+    if ld["reject"] != bool(o["err"]):
+        return "document %s but %s: %s" % ("must be rejected" if ld["reject"] else "is valid", "accepted" if not o["err"] else "rejected", o["err"][:200])
+    if ld["decoded"] != (o.get("view") is not None):
+        return "document must %sdecode, stage %s: %s" % ("" if ld["decoded"] else "not ", o["stage"], o["err"][:200])
+    if not ld["decoded"]:
+        return None
+    if o.get("eff_err"):
+        return "effective configuration could not be marshalled: %s" % o["eff_err"]
+    typed, eff = observed_tokens(o, ld["typed"])
+    for what, got in (("typed", typed), ("effective (conf.Marshal)", eff)):
+        bad = sorted(s for s in ld["typed"] if ld["typed"][s] != got[s])
+        if bad:
+            s0 = bad[0]
+            written = {w["s"] for w in ld["w"]}
+            return "%s configuration is not 'defaults overlaid by exactly the written keys': %s = %r, must be %r (%s)" % (
+                what, "::".join(setting_path(s0)), got[s0], ld["typed"][s0], "written by this document" if s0 in written else "NOT written by this document: factory default")
+    return None
+
+
+def run_seq_file(c, binp, seqs, label):
+    """seqs: list of lists of loads (each with _doc).  All sequences are loaded by ONE process, one after the other."""
+    inp = os.path.join(c.work, "seq_%s.ndjson" % label)
+    out = os.path.join(c.work, "seqres_%s.ndjson" % label)
+    types = {k: ["rt", "e1"] for k in ("receivers", "processors", "exporters", "connectors", "extensions")}
+    vlib.write_ndjson(inp, [dict(docs=[ld["_doc"] for ld in sq], types=types) for sq in seqs])
+    c.run([binp, "seq", inp, out], timeout=1800)
+    res = vlib.read_ndjson(out)
+    if len(res) != len(seqs) or any(len(r["loads"]) != len(sq) for r, sq in zip(res, seqs)):
+        raise vlib.Inconclusive("driver loaded %d of %d sequences" % (len(res), len(seqs)))
+    return res
+
+
+def first_mismatch(seqs, res):
+    for j, (sq, r) in enumerate(zip(seqs, res)):
+        for k, (ld, o) in enumerate(zip(sq, r["loads"])):
+            why = compare_load(ld, o)
+            if why:
+                return j, k, why
+    return None
+
+
+def run_histories(c, binp, seqs, label, procs=4):
+    """The histories are split into `procs` contiguous chunks, each chunk is loaded by ONE process on one goroutine, history
+    after history.  Every load is compared with its own specification.  Because process-wide state may carry over from
+    EARLIER histories of the same process, a mismatch is confirmed (and minimised) in a fresh process before it is reported."""
+    from concurrent.futures import ThreadPoolExecutor
+    for sq in seqs:
+        for ld in sq:
+            if ld.get("_doc") is None:
+                ld["_doc"] = render_load(c, ld)
+    n = max(1, (len(seqs) + procs - 1) // procs)
+    chunks = [seqs[i:i + n] for i in range(0, len(seqs), n)]
+    with ThreadPoolExecutor(max_workers=procs) as ex:
+        results = list(ex.map(lambda kc: run_seq_file(c, binp, kc[1], "%s_p%d" % (label, kc[0])), enumerate(chunks)))
+    nbad = 0
+    reported = False
+    for ck, (chunk, res) in enumerate(zip(chunks, results)):
+        nbad += sum(1 for sq, r in zip(chunk, res) if any(compare_load(ld, o) for ld, o in zip(sq, r["loads"])))
+        mm = first_mismatch(chunk, res)
+        if not mm or reported:
+            continue
+        j, k, why = mm
+        hist, win = None, 0
+        while True:                              # the history alone, then growing windows of the histories loaded before it
+            cand = [ld for sq in chunk[max(0, j - win):j + 1] for ld in sq]
+            r = run_seq_file(c, binp, [cand], label + "_confirm")
+            bad = [(i, compare_load(ld, o)) for i, (ld, o) in enumerate(zip(cand, r[0]["loads"]))]
+            bad = [(i, w) for i, w in bad if w]
+            if bad:
+                hist, why = cand[:bad[0][0] + 1], bad[0][1]
+                break
+            if win >= j:
+                break
+            win = min(j, max(1, win * 2))
+        if hist is None:
+            raise vlib.Inconclusive("a load differed from its specification in the batch but no history reproduces it in a fresh process: %s" % why)
+        reported = True
+        c.violation("%s; history of %d loads in one process, the last one: %s; the ones before: %s" % (
+                        why, len(hist), hist[-1]["_doc"][:300], [dict(w=h["w"], defect=h["defect"]) for h in hist[:-1]][-3:]),
+                    replay_obj=dict(kind="seq", loads=hist))
+    c.log("loaded %d histories (%d loads) in %d processes (%s): %d histories with a mismatch" % (
+        len(seqs), sum(len(sq) for sq in seqs), len(chunks), label, nbad))
+    return [r for res in results for r in res]
+
+
+def overlay_cfg(loads, writes, defects, invs, share=False):
+    return """SPECIFICATION OSpec
+CONSTANTS
+  MaxLoads = %d
+  MaxWrites = %d
+  Defects = %s
+  ShareDefaults = %s
+INVARIANTS %s
+CHECK_DEADLOCK FALSE
+""" % (loads, writes, q(defects), "TRUE" if share else "FALSE", invs)
+
+
 def run(c):
     qk = c.quick()
     binp = graphlib.go_build(c, "cfgvalidate")
@@ -346,7 +543,10 @@ def run(c):
         rp = json.load(open(c.replay))["replay"]
         c.tlc_must_pass("ConfigValidate", "ConfigValidate", files=PGFILES, timeout=600, label="design",
                         cfg_text=cfg_text("Pipes2", ["r1"], ["p1"], ["e1"], ["ca1"], 3, ["x1"], 1, "WalkSound"))
-        if rp.get("kind") == "walk":
+        if rp.get("kind") == "seq":
+            run_histories(c, binp, [rp["loads"]], "replay")
+            c.sample(dict(kind="replayed history", docs=[ld["_doc"] for ld in rp["loads"]]))
+        elif rp.get("kind") == "walk":
             run_trees(c, binp, [rp["tree"]], "replay")
             c.sample(dict(kind="replayed value tree", tree={k: rp["tree"][k] for k in ("nodes", "wraps", "bad")}))
         else:
@@ -369,13 +569,16 @@ def run(c):
     total = nontrivial = 0
     for k, u in enumerate(universes):
         args = u[:8]
-        c.tlc_must_pass("ConfigValidate", "ConfigValidate", cfg_text=cfg_text(*args, "WalkSound", maxkeys=u[8]), coverage=True, files=PGFILES,
-                        # (the WriteKey disjunct quantifies over a state-dependent set: TLC reports it under the name VNext)
-                        vacuous_ok=() if (u[8] and u[7]) else ("WriteKey", "VNext") if u[7] else
-                                   ("DanglingRef", "DupProcessor", "EmptyPipeline", "AmbiguousID", "Blank"),
-                        timeout=1500, label="design%d" % k)
-        r = c.tlc("ConfigValidate", "ConfigValidateGen", cfg_text=cfg_text(*args, "EmitDoc", maxkeys=u[8]), workers=1, files=PGFILES, timeout=1500,
-                  label="gen%d" % k, count=False, heap="8g")
+        if u[8]:
+            # written-key universes: design invariant and generator in one (single worker) run
+            r = c.tlc("ConfigValidate", "ConfigValidateGen", cfg_text=cfg_text(*args, "WalkSound EmitDoc", maxkeys=u[8]), workers=1,
+                      files=PGFILES, timeout=1800, label="keys%d" % k, count=True, heap="8g")
+        else:
+            # (the WriteKey disjunct quantifies over a state-dependent set: TLC reports it under the name VNext)
+            c.tlc_must_pass("ConfigValidate", "ConfigValidate", cfg_text=cfg_text(*args, "WalkSound"), coverage=True, files=PGFILES,
+                            vacuous_ok=("WriteKey", "VNext"), timeout=1500, label="design%d" % k)
+            r = c.tlc("ConfigValidate", "ConfigValidateGen", cfg_text=cfg_text(*args, "EmitDoc"), workers=1, files=PGFILES,
+                      timeout=1500, label="gen%d" % k, count=False, heap="8g")
         if not r.ok:
             raise vlib.Inconclusive("generator failed: %s\n%s" % (r.error, r.out[-1500:]))
         docs = dedup(r.printed)
@@ -386,6 +589,8 @@ def run(c):
         total += len(docs)
         nontrivial += sum(1 for d in docs if d["reject"])
         nkeys = sum(1 for d in docs if d["keys"])
+        if u[8] and not (any(d["keys"] and d["reject"] for d in docs) and any(d["keys"] and not d["reject"] for d in docs)):
+            raise vlib.Inconclusive("vacuous: the written-key universe has no rejected key or no accepted twin")
         c.log("universe %d: %d configurations (%d to be rejected; %d with a written key, %d of them accepted twins)" % (
             k, len(docs), sum(1 for d in docs if d["reject"]), nkeys, sum(1 for d in docs if d["keys"] and all(x["accepted"] for x in d["keys"]))))
         pick = [i for i, d in enumerate(docs) if (d["keys"] if u[8] else len(d["defects"]) >= 2) and d["pipes"]]
@@ -415,6 +620,33 @@ def run(c):
                           specified=[["::".join(t for t, _ in seg_texts(e["path"], rule_id(e["rule"]))), rule_id(e["rule"])] for e in trees[i]["expected"]],
                           observed=res[i]["reports"]))
     total += ntrees
+
+    # clause (d): histories of loads in one process, defaults overlaid by exactly the written keys
+    ovs = [(2, 1, ["dangling"])] if qk else [(3, 1, ["dangling"]), (2, 1, ["dangling", "unknownkey"]), (2, 2, [])]
+    for k, (nl, nw, df) in enumerate(ovs):
+        r = c.tlc("ConfigValidate", "ConfigOverlayGen", cfg_text=overlay_cfg(nl, nw, df, "Faithful EmitHist"), workers=1, timeout=1800,
+                  label="overlay%d" % k, count=True, heap="8g")
+        if not r.ok:
+            raise vlib.Inconclusive("overlay design check / generator failed: %s\n%s" % (r.error, (r.trace_text or r.out)[-1500:]))
+        seqs = dedup(r.printed)
+        if not seqs:
+            raise vlib.Inconclusive("overlay generator printed nothing")
+        c.rng.shuffle(seqs)                      # the order of the histories in the process is seeded
+        res = run_histories(c, binp, seqs, "o%d" % k)
+        total += len(seqs)
+        nontrivial += sum(1 for sq in seqs if len(sq) >= 2 and any(ld["w"] for ld in sq[:-1]))
+        if k == 0:
+            pick = [i for i, sq in enumerate(seqs) if len(sq) == nl and sq[0]["w"] and sq[0]["w"][0]["s"].startswith("tl.s") and not sq[-1]["w"]]
+            if pick:
+                i = pick[0]
+                c.sample(dict(kind="history of loads", docs=[ld["_doc"] for ld in seqs[i]],
+                              specified_last={s: v for s, v in seqs[i][-1]["typed"].items() if s.startswith("tl.")},
+                              observed_last=dict(stage=res[i]["loads"][-1]["stage"], sampling=(res[i]["loads"][-1].get("view") or {}).get("sampling"))))
+    # the memoised-defaults design (defaults built once per process) is refuted by the model itself
+    r = c.tlc("ConfigValidate", "ConfigOverlay", cfg_text=overlay_cfg(2, 1, [], "Faithful", share=True), workers=1, timeout=600,
+              label="overlay_shared", count=False)
+    if r.ok or not r.error or r.error[0] != "invariant":
+        raise vlib.Inconclusive("ConfigOverlay with ShareDefaults=TRUE should violate Faithful (the model lost its bite): %s" % (r.error,))
     c.traces_validated += total
     c.evaluations = total
     c.exhaustive = True
